@@ -273,7 +273,7 @@ def interp_obs(i, rnd, title):
         import pandas as pd
         df = pd.read_csv(fn, index_col=0)
         csv = {c: [float(v) for v in df[c].values] for c in df.columns}
-        os.remove(fn)
+        # (the file is left in place: a later run with the same title must overwrite it, not inherit from it)
     return dict(round=rnd, pf=float(i.percent_people_fed), kcals_fed=fl(i.kcals_fed), percent=pf, kcals_eq=keq, csv=csv,
                 feed_sum_keq=k("feed_sum_kcals_equivalent"), bio_sum_keq=k("biofuels_sum_kcals_equivalent"),
                 feed_sum=k("feed_sum"), bio_sum=k("biofuels_sum") if hasattr(i, "biofuels_sum") else None)
@@ -305,6 +305,21 @@ def run_job(job):
     t0 = time.time()
     rec = dict(job=job)
     opts = dict(job["options"])
+    if job.get("prelude"):
+        # a history: the same title is first run with other options (results/ then already holds tables of that title)
+        try:
+            with contextlib.redirect_stdout(io.StringIO()), contextlib.redirect_stderr(io.StringIO()):
+                pre = dict(job["prelude"])
+                if job["cc"] == "WOR":
+                    run_world(pre, "v%d_WOR_%s" % (os.getpid(), job["preset"]))
+                else:
+                    ScenarioRunnerNoTrade().run_model_no_trade(
+                        title="v%d_%s_%s" % (os.getpid(), job["cc"], job["preset"]), create_pptx_with_all_countries=False, scenario_option=pre,
+                        countries_list=[job["cc"]], return_results=True)
+        except BaseException:
+            pass
+        CAP = dict(herds=[], solves=[], lps=[], interp=[], validators=[])
+        cap = CAP
     try:
         with contextlib.redirect_stdout(buf), contextlib.redirect_stderr(buf):
             if job["cc"] == "WOR":
